@@ -316,9 +316,13 @@ func runStressOne(p *Program, per map[string][]Step) ([]Event, int, error) {
 	return evs, overlaps, nil
 }
 
-// runRaceOne: rounds of "everybody locks the same key at the same moment", one clock unit apart, with locks of one
-// unit: from the second round on the key holds an *expired* entry and the contenders race to take it over (the
-// compare-and-swap of L2InMemoryCache.Lock).  Time windows as in the serial driver (errTiming = re-run, not judged).
+// runRaceOne: rounds of "everybody locks the same key at the same moment", with locks of one unit and one tick
+// between rounds: from the second round on the key holds an *expired* entry and the contenders race to take it over
+// (the compare-and-swap of L2InMemoryCache.Lock).
+// Time: a lock lasts D = unit/2.  A round is valid if all its calls start and end within D - margin of the release
+// (so the round's first lock is unexpired throughout the round); the next round is released no earlier than
+// D + margin after the end of this one (so all its locks have expired).  An invalid round discards the trace
+// (errTiming: re-run with a longer unit, never judged).
 func runRaceOne(p *Program, rounds int, unit time.Duration, r *rand.Rand) ([]Event, error) {
 	s := newMem(p.Cap, p.Owners)
 	s.unit = unit
@@ -327,20 +331,16 @@ func runRaceOne(p *Program, rounds int, unit time.Duration, r *rand.Rand) ([]Eve
 			s.lockKeys(o, []int{k})
 		}
 	}
-	margin := unit / 10
+	D := s.dur(1)
+	margin := D / 5
 	var mu sync.Mutex
 	evs := []Event{{"ev": "TraceStart", "name": p.Name}, {"ev": "Setup", "variant": "mem", "cap": p.Cap, "silent": true}}
-	epoch := time.Now()
+	var notBefore time.Time
 	for T := 0; T < rounds; T++ {
-		if T > 0 {
-			if d := time.Until(epoch.Add(time.Duration(T) * unit)); d > 0 {
-				time.Sleep(d + 200*time.Microsecond)
-			}
-			evs = append(evs, Event{"ev": "Tick"})
-		}
 		k := 1 + r.Intn(p.NKeys)
-		lo := time.Duration(T) * unit
-		late := false
+		if d := time.Until(notBefore); d > 0 { // before the contenders exist: they spin
+			time.Sleep(d)
+		}
 		var goFlag int32
 		var wg, logged sync.WaitGroup
 		var firstErr error
@@ -356,28 +356,29 @@ func runRaceOne(p *Program, rounds int, unit time.Duration, r *rand.Rand) ([]Eve
 				logged.Done()
 				for atomic.LoadInt32(&goFlag) == 0 { // spin: a channel wake-up would spread the starts over microseconds
 				}
-				t0 := time.Since(epoch)
 				ok, oth, err := s.doCall(st)
-				t1 := time.Since(epoch)
 				mu.Lock()
 				evs = append(evs, Event{"ev": "Return", "o": o, "ok": ok, "other": oth})
 				if err != nil && firstErr == nil {
 					firstErr = err
 				}
-				if t0 < lo || t1 > lo+unit/2-margin {
-					late = true
-				}
 				mu.Unlock()
 			}(o)
 		}
 		logged.Wait()
+		released := time.Now()
 		atomic.StoreInt32(&goFlag, 1)
 		wg.Wait()
+		ended := time.Now()
 		if firstErr != nil {
 			return nil, firstErr
 		}
-		if late {
+		if ended.Sub(released) > D-margin {
 			return nil, errTiming
+		}
+		notBefore = ended.Add(D + margin)
+		if T+1 < rounds {
+			evs = append(evs, Event{"ev": "Tick"})
 		}
 	}
 	return evs, nil
@@ -406,7 +407,7 @@ func runStress(c RandCfg, out string) {
 	dropped, retries := 0, 0
 	var mu sync.Mutex
 	var wg sync.WaitGroup
-	sem := make(chan struct{}, 8)
+	sem := make(chan struct{}, 6)
 	var failure error
 	for i := 0; i < c.Race; i++ {
 		no := 2 + r.Intn(c.Owners-1)
